@@ -102,5 +102,39 @@ class BinCompletion(FunctionContract):
         return prtpy.pack(algorithm=prtpy.packing.bin_completion, binsize=w["binsize"], items=list(w["values"]), outputtype=prtpy.out.BinCount)
 
 
+class BinCompletionOversize(BinCompletion):
+    """C19: an item larger than the bin size, at any position, makes bin_completion raise ValueError; nothing else does"""
+    min_obligations = 1
+    expect_raise = ("ValueError",)
+    crosscheck = False
+
+    def shapes(self, level):
+        return [(n, False) for n in ((1, 2, 3) if level == "quick" else (1, 2, 3, 4))]
+
+    def shape_text(self, s):
+        return f"n={s[0]} integer items >= 0, any of them possibly larger than binsize"
+
+    def make_args(self, it, shape):
+        args = super().make_args(it, shape)
+        # drop the v <= binsize requirement: rebuild the assumptions from scratch is not possible, so use fresh symbols
+        n = shape[0]
+        B = z3.Int("binsize_")
+        vs = [z3.Int(f"u{i}") for i in range(n)]
+        it.assume(B >= 1)
+        for v in vs:
+            it.assume(v >= 0)
+        self._vs, self._B = vs, B
+        args["binsize"] = SV(B)
+        args["items"] = PList([SV(v) for v in vs])
+        return args
+
+    def post(self, c, kind, res):
+        over = z3.Or([v > self._B for v in self._vs])
+        if kind == "raise":
+            return [("C19:ValueError-only-for-an-oversize-item", z3.And(z3.BoolVal(res.cls == "ValueError"), over))]
+        return [("C19:returns-only-without-oversize-item", z3.Not(over))]
+
+
 bin_completion = BinCompletion()
+bin_completion_oversize = BinCompletionOversize()
 ALL = [("contracts.bincompletion", "bin_completion")]
